@@ -112,6 +112,41 @@ Val(s) ==
   IF p[1] = "num" THEN p
   ELSE LET sp == Special(t) IN IF sp = "none" THEN <<"throw">> ELSE <<"sp", sp>>
 
+(* ------------------------------------------------------------------------ *)
+(* The other specialisations of val<T> that Utility.hpp documents.           *)
+(*  val<std::string>: "s is returned (with the white space at the beginning  *)
+(*    and end removed)".                                                      *)
+(*  val<int>: "readable as a T", white space at both ends ignored: a decimal  *)
+(*    integer literal [sign] digits and nothing else; inf and nan are         *)
+(*    recognised only "if T is a floating point type".  <<"int", neg, n>>,    *)
+(*    <<"big">> (more than 9 significant digits: not modelled) or <<"throw">>.*)
+(*  val<bool>: "s should either be string a representing 0 (false) or 1       *)
+(*    (true) or one of the strings false f nil no n off "" meaning false,     *)
+(*    true t yes y on meaning true; case is ignored".  <<"bool", b>>,         *)
+(*    <<"throw">>, or <<"any">> for the spellings of 0 and 1 that are numbers *)
+(*    but not integer literals (1.0, 1e0: rule BoolNumberForms).              *)
+(* ------------------------------------------------------------------------ *)
+ValStr(s) == Trim(s)
+IntLit(t) ==
+  LET n == Len(t)
+      i1 == IF n >= 1 /\ IsSign(t[1]) THEN 2 ELSE 1
+      a == SkipDigits(t, i1)
+  IN IF a = i1 \/ a # n + 1 THEN <<"bad">>
+     ELSE LET ds == SubSeq(t, i1, n) IN
+          IF SigLen(ds) > 9 THEN <<"big">> ELSE <<"int", t[1] = 45, DigitsVal(ds)>>
+ValInt(s) == LET r == IntLit(Trim(s)) IN IF r[1] = "bad" THEN <<"throw">> ELSE r
+
+BoolFalseWords == {<<102, 97, 108, 115, 101>>, <<102>>, <<110, 105, 108>>, <<110, 111>>, <<110>>, <<111, 102, 102>>, <<>>}   \* false f nil no n off ""
+BoolTrueWords == {<<116, 114, 117, 101>>, <<116>>, <<121, 101, 115>>, <<121>>, <<111, 110>>}                                   \* true t yes y on
+ValBool(s) ==
+  LET t == LowerS(Trim(s))  i == IntLit(t)  p == ParseNum(t) IN
+  IF t \in BoolFalseWords THEN <<"bool", FALSE>>
+  ELSE IF t \in BoolTrueWords THEN <<"bool", TRUE>>
+  ELSE IF i[1] = "int" THEN (IF i[3] = 0 THEN <<"bool", FALSE>> ELSE IF i[3] = 1 /\ ~i[2] THEN <<"bool", TRUE>> ELSE <<"throw">>)
+  ELSE IF i[1] = "big" THEN <<"any">>
+  ELSE IF p[1] = "num" /\ p[5] /\ (p[3] = 0 \/ (p[3] = 1 /\ p[4] = 0 /\ ~p[2])) THEN <<"any">>
+  ELSE <<"throw">>
+
 (* fract: "a/b" with both sides non-empty is val(a)/val(b); otherwise val(s)  *)
 SlashPos(s) == LET S == {i \in 1..Len(s) : s[i] = 47} IN IF S = {} THEN 0 ELSE CHOOSE i \in S : \A j \in S : i <= j
 Fract(s) ==
